@@ -134,8 +134,8 @@ def detachFrom (kind : Kind) (t : Tree) : Tree :=
 
 /-- builtin `clear()` of the payload. Unpatched, the removed children keep their beliefs
 (F33); patched, they are detached. Either way they become roots of their own. -/
-def dropAll (cfg : Cfg) (f : Forest) (m : Meta) (its : Items) : Forest :=
-  addRoots (f.mapAt m.id (fun _ _ => []))
+def dropAll (cfg : Cfg) (f : Forest) (t : Nat) (m : Meta) (its : Items) : Forest :=
+  addRoots (f.mapAt t (fun _ _ => []))
     ((childNodes its).map (fun c => if cfg.detachOnRemove then detachFrom m.kind c else c))
 
 def insertByRank {α : Type} (x : Int × α) : List (Int × α) → List (Int × α)
@@ -407,7 +407,7 @@ def step (cfg : Cfg) (f : Forest) (notifyOn : Bool) : Op → Res
   | .lClear t =>
     match f.find? t with
     | some (.node m its) =>
-      if m.sealed then ⟨f, .err .perm⟩ else ⟨dropAll cfg f m its, .ok⟩
+      if m.sealed then ⟨f, .err .perm⟩ else ⟨dropAll cfg f t m its, .ok⟩
     | _ => ⟨f, .skip⟩
   | .lSort t ranks rev =>
     match f.find? t with
@@ -423,7 +423,7 @@ def step (cfg : Cfg) (f : Forest) (notifyOn : Bool) : Op → Res
     match f.find? t with
     | some (.node m its) =>
       if n ≤ 0 then
-        (if m.sealed then ⟨f, .err .perm⟩ else ⟨dropAll cfg f m its, .ok⟩)
+        (if m.sealed then ⟨f, .err .perm⟩ else ⟨dropAll cfg f t m its, .ok⟩)
       else
         if m.sealed then ⟨f, .err .perm⟩ else
         let one : List VE := its.map (fun kv => match kv.2 with
@@ -470,7 +470,7 @@ def step (cfg : Cfg) (f : Forest) (notifyOn : Bool) : Op → Res
   | .dClear t =>
     match f.find? t with
     | some (.node m its) =>
-      if m.sealed then ⟨f, .err .perm⟩ else ⟨dropAll cfg f m its, .ok⟩
+      if m.sealed then ⟨f, .err .perm⟩ else ⟨dropAll cfg f t m its, .ok⟩
     | _ => ⟨f, .skip⟩
   | .dSetDefault t k v =>
     match f.find? t with
